@@ -1,3 +1,36 @@
-(* C05/Props.v -- property theorems (under construction) *)
-From Coq Require Import List.
-From Verif Require Import Base.Num Base.Vec C05.Model C05.Proofs.
+(* C05/Props.v -- property theorems only; each is closed by [exact] of a lemma
+   from C05/Proofs*.v and followed by Print Assumptions.
+
+   Model: C05/Model.v.  Elements are flat lists, a space is the list [w] of its
+   Gram diagonal, <x,y>_w = sum_i w_i x_i conj(y_i) ([cinner]).  [eval e] is the
+   action of the operator expression [e], [adjoint e] the expression the
+   library returns as [e.adjoint].  The carrier is R (conj = id) or C = R*R. *)
+From Coq Require Import Reals List Bool.
+From Verif Require Import Base.Num Base.Vec C05.Model C05.Alg C05.Inst C05.Proofs.
+Import ListNotations.
+
+(* T1 (all trees, any depth and width): if the expression is well-formed (spaces of
+   operands match as the constructors of odl/operator/operator.py and pspace_ops.py
+   require) and every LEAF satisfies the adjoint identity in its own weighted spaces,
+   then the operator returned by .adjoint (order reversal for compositions,
+   conj(s) for scalar multiples on either side, conj(v) with sides swapped for
+   vector multiples, v.T for functional-times-vector, Broadcast <-> Reduction,
+   Diagonal) maps range to domain and satisfies <Ax,y>_ran = <x,A*y>_dom for all x,y. *)
+Theorem expr_adjoint_sound_real : forall e : oexpr R, wf leaf_ok e ->
+  (forall x, length x = length (dom e) -> length (eval e x) = length (ran e)) /\
+  (forall y, length y = length (ran e) -> length (eval (adjoint e) y) = length (dom e)) /\
+  (forall x y, length x = length (dom e) -> length y = length (ran e) ->
+     cinner (ran e) (eval e x) y = cinner (dom e) x (eval (adjoint e) y)) /\
+  dom (adjoint e) = ran e /\ ran (adjoint e) = dom e.
+Proof. exact (expr_adjoint_sound_flat cring_ok_R). Qed.
+Print Assumptions expr_adjoint_sound_real.
+
+(* the same over the complex numbers (scalars and vectors are conjugated) *)
+Theorem expr_adjoint_sound_complex : forall e : oexpr (R * R), wf leaf_ok e ->
+  (forall x, length x = length (dom e) -> length (eval e x) = length (ran e)) /\
+  (forall y, length y = length (ran e) -> length (eval (adjoint e) y) = length (dom e)) /\
+  (forall x y, length x = length (dom e) -> length y = length (ran e) ->
+     cinner (ran e) (eval e x) y = cinner (dom e) x (eval (adjoint e) y)) /\
+  dom (adjoint e) = ran e /\ ran (adjoint e) = dom e.
+Proof. exact (expr_adjoint_sound_flat cring_ok_C). Qed.
+Print Assumptions expr_adjoint_sound_complex.
